@@ -7,7 +7,8 @@ its own port, so the server side knows which flow a connection attempt belongs t
 refuse, answer after a generated virtual delay, close early, reset, answer partially or never answer.  An observer
 addon delays the flow hooks (``requestheaders``/``request``/``response``/``error``) and the replay handler's
 connection hooks (``server_connect``/``server_connected``/``server_disconnected``, i.e. set-up and tear-down) by
-generated virtual durations.  The scenario submits lists of
+generated virtual durations, and intercepts flows in generated flow hooks, resuming them after a generated virtual
+time (an intercepted flow is still in flight).  The scenario submits lists of
 replayable and unreplayable flows and issues ``replay.client.stop`` at generated virtual instants.
 
 Oracle:
@@ -37,7 +38,7 @@ TECHNIQUE = "generated replay scenarios on a deterministic asyncio simulator vs.
 RULE = ("scenarios decoded from a generated 160-byte tape: <=7 flows of kinds fresh/with-response/user-modified/"
         "live/intercepted/no-content/tcp/udp/dns/websocket, <=6 operations (start_replay of a flow subset | stop_replay) "
         "at generated virtual delays, per connection attempt: refuse | answer after delay | close | reset | partial | "
-        "never, delays of flow hooks and of server_connect/connected/disconnected (tear-down) hooks, timer overshoots, eager/lazy task start.  non-trivial = >=2 replayable flows queued with "
+        "never, flows intercepted in generated hooks and resumed later, delays of flow hooks and of server_connect/connected/disconnected (tear-down) hooks, timer overshoots, eager/lazy task start.  non-trivial = >=2 replayable flows queued with "
         "a slow/failing/never-answering first server, or a stop with a non-empty queue; distinct by (flow kinds, ops, "
         "server modes)")
 ASSUMPTIONS = ["client_replay_concurrency = 1; plain-http flows (no TLS towards the fake origin)",
@@ -73,8 +74,10 @@ def decode(data):
             n = len(flows)
             mask = t.byte() | (1 << (m >> 2) % n)
             ops.append([delay, "start", [i for i in range(n) if mask >> i & 1]])
-    return {"flows": flows, "servers": servers, "hooks": hooks, "ops": ops,
-            "overshoots": [t.pick(_OVERSHOOT) for _ in range(t.below(5))], "eager": t.flag(1, 2)}
+    out = {"flows": flows, "servers": servers, "hooks": hooks, "ops": ops,
+           "overshoots": [t.pick(_OVERSHOOT) for _ in range(t.below(5))], "eager": t.flag(1, 2)}
+    out["holds"] = [t.pick([0, 0, 0, 0, 3, 50, 400]) for _ in range(t.below(25))]
+    return out
 
 
 def strategy(ctx):
@@ -124,6 +127,13 @@ class Observer:
         d = hooks[k] if k < len(hooks) else 0
         if d:
             await asyncio.sleep(d * U)
+        holds = self.sc.get("holds", ())
+        hold = holds[k] if k < len(holds) else 0
+        if hold and flow is not None:
+            # the addon intercepts the flow in this hook (like an intercept filter); "the user" resumes it later
+            flow.intercept()
+            self.log.append((self.loop.time(), "intercept", name, i))
+            self.loop.call_later(hold * U, flow.resume)
 
     async def requestheaders(self, flow):
         await self._h("requestheaders", flow)
@@ -188,9 +198,9 @@ def run_scenario(sc, ctx):
                 # (only replays that went to a server: a flow submitted twice still carries the first replay's
                 #  response when it is dequeued again; the layer then answers from that response, a path whose
                 #  live-flag handling is not what this property is about)
-                if j != i and j in did_connect and j not in model and j not in stopped and flows[j].live:
+                if j != i and j in did_connect and j not in model and j not in stopped and (flows[j].live or flows[j].intercepted):
                     fails.append(("overlap:previous-flow-still-live:" + where,
-                                  "replay of flow %d starts while flow %d is still live" % (i, j)))
+                                  "replay of flow %d starts while flow %d is still %s" % (i, j, "intercepted" if flows[j].intercepted else "live")))
 
         def on_first(i):
             """first hook (requestheaders) of a replay: the playback loop has dequeued flow i"""
@@ -355,6 +365,7 @@ def run_scenario(sc, ctx):
                     if "never" not in info["modes"]:
                         fails.append(("stuck-without-never-server", "queue did not drain; modes %r; log tail %r" % (info["modes"], log[-4:])))
                 info["replayed"] = len(replayed)
+                info["intercepts"] = sum(1 for r in log if r[1] == "intercept")
                 info["nrep"] = sum(1 for k in kinds if k not in UNREPLAYABLE)
                 await cp.done()
             finally:
@@ -391,6 +402,8 @@ def check_case(case, ctx):
     if info["stuck"]:
         ctx.cls("stuck-on-never-server")
     ctx.cls("eager" if case.get("eager") else "lazy")
+    if info.get("intercepts"):
+        ctx.cls("flow-intercepted-during-replay")
     if info["resubmitted"]:
         ctx.cls("flow-resubmitted-while-queued" + ("+stop" if info["stop_nonempty"] else ""))
     if info["stop_dirty"]:
